@@ -272,7 +272,13 @@ def check(ctx: Ctx) -> None:
             content = [a.arg for a in fn.args.args[1:] if not (meth == "insert" and a is fn.args.args[1])] + \
                 ([("*" + fn.args.vararg.arg)] if fn.args.vararg else [])
             if own and l.kind == "return" and meth in ("__init__", "append", "extend", "__iadd__", "insert"):
-                stored = [val for _, _, val in sinks if _is_san_result(val) or _reaches_obj(val, _is_san_result)]
+                def _is_taglist_storage(v_: Any) -> bool:
+                    # the storage of a TagList operand (or the operand itself, spliced element-wise) holds normalised nodes already
+                    if isinstance(v_, SObj) and v_.kinds and v_.kinds <= {"TAGLIST"} and v_.uid in params:
+                        return True
+                    lo_ = v_.meta.get("list_of") if isinstance(v_, SObj) else None
+                    return isinstance(lo_, SObj) and lo_.kinds and lo_.kinds <= {"TAGLIST"} and lo_.uid in params
+                stored = [val for _, _, val in sinks if _is_san_result(val) or _reaches_obj(val, _is_san_result) or _is_taglist_storage(val)]
                 missing = [pn for pn in content if not any(_reaches(v_, pn, params) for v_ in stored)]
                 # an argument the path has established to be empty contributes nothing
                 empties = set()
